@@ -50,6 +50,14 @@ struct CRawWaker {
     vtable: &'static OpaqueRawWakerVtbl,
 }
 
+impl Drop for CRawWaker {
+    fn drop(&mut self) {
+        // All handles cloned from one foreign-side waker share a single clone of the caller's
+        // waker. Release it exactly once, together with the shared record.
+        unsafe { (self.vtable.drop)(self.waker) }
+    }
+}
+
 impl CRawWaker {
     fn to_raw(this: BaseArc<CRawWaker>) -> RawWaker {
         unsafe fn clone(data: *const ()) -> RawWaker {
@@ -59,8 +67,10 @@ impl CRawWaker {
             CRawWaker::to_raw(waker)
         }
         unsafe fn wake(data: *const ()) {
+            // Wake through the shared inner waker, then release this handle. The inner waker is
+            // released once, when the last handle goes away (see `Drop for CRawWaker`).
             let this = BaseArc::from_raw(data as *const CRawWaker);
-            (this.vtable.wake)(this.waker)
+            (this.vtable.wake_by_ref)(this.waker)
         }
         unsafe fn wake_by_ref(data: *const ()) {
             let data = data as *const CRawWaker;
@@ -68,8 +78,7 @@ impl CRawWaker {
             (this.vtable.wake_by_ref)(this.waker)
         }
         unsafe fn drop(data: *const ()) {
-            let this = BaseArc::from_raw(data as *const CRawWaker);
-            (this.vtable.drop)(this.waker)
+            let _ = BaseArc::from_raw(data as *const CRawWaker);
         }
 
         let vtbl = &RawWakerVTable::new(clone, wake, wake_by_ref, drop);
